@@ -24,7 +24,7 @@ RULE = (
 )
 ASSUMPTIONS = [
     "data compared to 1e-12 relative (identical scipy calls); a step scipy itself rejects in the model (record too short) ends the history for both sides",
-    "documented keywords = those named in the library's docstrings: decimate n/ftype/zero_phase, detrend type/bp, filter Wn/order/btype",
+    "documented keywords = those named in the library's docstrings: decimate n/ftype/zero_phase, detrend type/bp, filter Wn/order/btype, plus scipy's axis=0 (the only admissible value)",
     "rollback also empties the setup's algorithm dictionary (not part of the property, not judged)",
 ]
 
@@ -33,9 +33,9 @@ FS0 = 100.0
 ALPHABET = [
     {"op": "decimate", "q": 2},
     {"op": "decimate", "q": 3},
-    {"op": "decimate", "q": 2, "kw": {"ftype": "fir", "n": 8, "zero_phase": False}},
+    {"op": "decimate", "q": 2, "kw": {"ftype": "fir", "n": 8, "zero_phase": False, "axis": 0}},
     {"op": "detrend", "kw": {"type": "linear"}},
-    {"op": "detrend", "kw": {"type": "constant", "bp": 100}},
+    {"op": "detrend", "kw": {"type": "constant", "bp": 100, "axis": 0}},
     {"op": "filter", "wn": [0.4], "order": 8, "btype": "lowpass", "default_order": True},
     {"op": "filter", "wn": [0.2, 0.6], "order": 4, "btype": "bandpass"},
     {"op": "rollback"},
@@ -62,10 +62,10 @@ def _split(d, refs):
 def _model_step(cur, fs, op):
     """apply op to every dataset with scipy; returns (new list, new fs) or raises (scipy rejects)"""
     if op["op"] == "decimate":
-        new = [signal.decimate(d, op["q"], axis=0, **op.get("kw", {})) for d in cur]
+        new = [signal.decimate(d, op["q"], axis=0, **{k_: v_ for k_, v_ in op.get("kw", {}).items() if k_ != "axis"}) for d in cur]  # samples run along axis 0: the only value 'axis' can take
         return new, fs / op["q"]
     if op["op"] == "detrend":
-        return [signal.detrend(d, axis=0, **op.get("kw", {})) for d in cur], fs
+        return [signal.detrend(d, axis=0, **{k_: v_ for k_, v_ in op.get("kw", {}).items() if k_ != "axis"}) for d in cur], fs
     if op["op"] == "filter":
         wn = [w * fs / 2 for w in op["wn"]]
         wn = wn[0] if len(wn) == 1 else wn
@@ -240,6 +240,8 @@ def op_strategy(draw):
             kw["n"] = draw(st.integers(2, 12))
         if draw(st.booleans()):
             kw["zero_phase"] = draw(st.booleans())
+        if draw(st.integers(0, 3)) == 0:
+            kw["axis"] = 0
         if kw:
             op["kw"] = kw
         return op
@@ -249,6 +251,8 @@ def op_strategy(draw):
             kw["type"] = draw(st.sampled_from(["linear", "constant"]))
         if draw(st.booleans()):
             kw["bp"] = draw(st.one_of(st.integers(1, 60), st.lists(st.integers(1, 60), min_size=1, max_size=3, unique=True).map(sorted)))
+        if draw(st.integers(0, 3)) == 0:
+            kw["axis"] = 0
         return {"op": "detrend", "kw": kw}
     if name == "filter":
         bt = draw(st.sampled_from(["lowpass", "highpass", "bandpass", "bandstop"]))
